@@ -143,6 +143,7 @@ struct OptimOps {
         Eigen::VectorXd x(2);
         x << 1.0, -0.1;
         const CurveData& cd = *st->cd;
+        opts.verbose = (op.p[3] & 1) != 0;  // the printing path (stdout goes to /dev/null in the harness)
         const auto r = smooth::minimize(
           [&cd, opp](const auto& v) -> Eigen::VectorXd {
             h::cb_tick(*opp);
